@@ -944,6 +944,24 @@ func genC06(prop, tier string, r *rand.Rand) *Scn {
 		}
 		return g.sc
 	}
+	if r.IntN(10) == 0 {
+		// the deadline falls inside (or is nearer than) the retry wait of an item
+		// whose first attempt failed: whatever is made of the wait, that item's
+		// slot is its own outcome - an error - and the others keep theirs
+		g.failP = 0
+		ni := 1 + r.IntN(6)
+		n := g.rootBatch(ni, 2, 0, conc, stop, []string{"results", "anys", "ints", "strings"})
+		n.Settings = nil
+		setBatchConfig(g, n, 2, pick(r, []int{50, 30000}), conc, stop)
+		vs := &n.Visits[0]
+		for i := range vs.Items {
+			vs.Items[i].Exec = []Outcome{{Pay: "int"}}
+			vs.Items[i].Fb = nil
+		}
+		vs.Items[r.IntN(ni)].Exec = []Outcome{{Fail: pick(r, failKinds)}, {Pay: "int"}}
+		g.sc.Ctx = CtxSpec{Kind: "deadline", DeadlineUs: int64(1000*(1+r.IntN(40)) + 1 + r.IntN(900))}
+		return g.sc
+	}
 	n := g.rootBatch(batchSize(r, 64), budget, pick(r, []int{0, 0, 10}), conc, stop, []string{"results", "anys", "ints", "strings", "single", "nil"})
 	g.timing(n)
 	if r.IntN(8) == 0 {
